@@ -164,6 +164,53 @@ REQUIRED = ["bin:0", "bin:1", "bin:16+", "str:0", "int:0", "int:neg", "int:big",
             "att-frame:empty"]
 
 
+# ---- Python twin of the Coq class predicate CodecCheck.deep_wrapped (hb / nobin / wokp of Sio/RoundtripProofs.v)
+def py_hb(u, t):
+    k = t[0]
+    if k in ("a", "p"):
+        return u > 0 and py_hb(u - 1, t[1])
+    if k == "B":
+        return True
+    if k == "l":
+        return any(py_hb(2, x) for x in t[1])
+    if k in ("S", "m"):
+        return any(py_hb(2, f[1]) for f in t[1])
+    return False
+
+
+def py_nobin(t):
+    k = t[0]
+    if k == "B":
+        return False
+    if k in ("a", "p"):
+        return py_nobin(t[1])
+    if k == "l":
+        return all(py_nobin(x) for x in t[1])
+    if k in ("S", "m"):
+        return all(py_nobin(f[1]) for f in t[1])
+    return True
+
+
+def py_wokp(pre, u, t):
+    k = t[0]
+    if k in ("a", "p"):
+        if pre:
+            return py_wokp(False, 2, t[1])
+        return py_wokp(False, u - 1, t[1]) if u > 0 else py_nobin(t[1])
+    if k == "l":
+        return all(py_wokp(False, 2, x) for x in t[1])
+    if k in ("S", "m"):
+        return all(py_wokp(True, 2, f[1]) for f in t[1])
+    return True
+
+
+def py_deep_wrapped(r):
+    v = r["v"]
+    return v is not None and not (py_wokp(False, 2, v) and (py_hb(2, v) or py_nobin(v)))
+
+
+DEEP_KEY = "binary-behind-deep-wrappers"
+
 MASK = {1: "encode-refused", 2: "wire-not-v5", 4: "roundtrip-header", 8: "any-handler-binary", 16: "any-handler-binary",
         32: "value-changed", 64: "header-rewritten", 128: "reencode-differs"}
 WHAT = {
@@ -207,7 +254,7 @@ def codec_suite(ctx, vh, name, args):
     ctx.extra["skipped_outside_model"] += skipped
     # the property on the implementation's observations first
     masks = ctx.coq_eval_values("codec_" + name.replace("-", "_"), HDR,
-                                ["(let c := %s in (oracle_mask c, known_mask c, if agree c then 1 else 0)%%N)" % t for t in terms],
+                                ["(let c := %s in (oracle_mask c, known_mask c, (if agree c then 1 else 0), known_class c)%%N)" % t for t in terms],
                                 shard=25)
     bad_agree = []
     n_fail, n_known = 0, 0
@@ -216,6 +263,13 @@ def codec_suite(ctx, vh, name, args):
         om, km = nums[0], nums[1]
         if nums[2] != 1:
             bad_agree.append(i)
+        deep = nums[3] == 1
+        if deep != py_deep_wrapped(r):
+            ctx.violation("the finding class %s is decided differently by the check (Python: %s) and by the Coq predicate "
+                          "CodecCheck.deep_wrapped (%s) on packet %s" % (DEEP_KEY, py_deep_wrapped(r), deep, r["label"]),
+                          {"kind": "correspondence-broken", "suite": "class-predicates", "case": r}, no_input=True)
+        if deep:
+            ctx.dist["class:" + DEEP_KEY] = ctx.dist.get("class:" + DEEP_KEY, 0) + 1
         if om == 0:
             continue
         for bit, key in MASK.items():
@@ -230,7 +284,7 @@ def codec_suite(ctx, vh, name, args):
                       "args": [str(a) for a in args], "case": r}
             if km & bit:
                 n_known += 1
-                ctx.fail_or_known(key, what, replay)
+                ctx.fail_or_known(DEEP_KEY if (deep and bit in (2, 4, 8, 16)) else key, what, replay)
             else:
                 n_fail += 1
                 ctx.violation(what, replay)
